@@ -15,6 +15,7 @@ mod w3b;
 mod w4;
 mod c18;
 mod w5;
+mod selftest;
 mod elem;
 mod vut;
 mod dual;
@@ -87,6 +88,14 @@ fn main() {
             let res = PathBuf::from(&args[7]);
             let c = checks.iter().find(|c| c.id() == id).expect("known check");
             framework::worker(*c, tier, widx, n, seed, &res)
+        }
+        Some("digest") => {
+            let c = checks.iter().find(|c| c.id() == args[2]).expect("known check");
+            selftest::digest(*c, args[3].parse().unwrap(), args[4].parse().unwrap(), args[5].parse().unwrap())
+        }
+        Some("selftest") => {
+            let n: u64 = args.get(2).and_then(|s| s.parse().ok()).unwrap_or(120);
+            selftest::selftest(&checks, n, args.get(3).map(String::as_str))
         }
         Some("try-open") => c18::try_open_main(&args[2], args[3].parse().unwrap_or(0)),
         Some("replay") => framework::replay(&checks, &PathBuf::from(&args[2])),
